@@ -244,7 +244,11 @@ fn resp_fields(r: &Response) -> String {
 }
 
 fn new_request(rl: &str, hl: &str, mm: &str) -> Request {
-    let mut r = Request::new();
+    new_request_from(Request::new(), rl, hl, mm)
+}
+// the same limits on top of a value built by the caller: Request::default() must be the value new() builds
+fn new_request_from(base: Request, rl: &str, hl: &str, mm: &str) -> Request {
+    let mut r = base;
     match rl {
         "d" => (),
         s => r.request_line_limit = opt_limit(s),
@@ -261,7 +265,13 @@ fn new_request(rl: &str, hl: &str, mm: &str) -> Request {
 }
 
 fn run_req(a: &[&str]) -> (String, String) {
-    let mut r = new_request(a[0], a[1], a[2]);
+    run_req_with(new_request(a[0], a[1], a[2]), a)
+}
+fn run_reqd(a: &[&str]) -> (String, String) {
+    run_req_with(new_request_from(Request::default(), a[0], a[1], a[2]), a)
+}
+fn run_req_with(base: Request, a: &[&str]) -> (String, String) {
+    let mut r = base;
     let dels = deliveries(a[3]);
     let (trace, verdict, total, presented) = feed(
         |buf| match r.parse(buf) {
@@ -282,7 +292,103 @@ fn run_req(a: &[&str]) -> (String, String) {
 }
 
 fn run_resp(a: &[&str]) -> (String, String) {
+    run_resp_with(Response::new(), a)
+}
+fn run_respd(a: &[&str]) -> (String, String) {
+    run_resp_with(Response::default(), a)
+}
+// a caller that goes on after an error: every delivery is presented (what a rejected call was given is dropped);
+// whatever the answers are, each call must return (judged by the supervisor: a panic or abort is the failure)
+fn run_reqe(a: &[&str]) -> (String, String) {
+    let mut r = new_request(a[0], a[1], a[2]);
+    let mut pending: Vec<u8> = Vec::new();
+    let mut trace = Vec::new();
+    for d in deliveries(a[3]) {
+        pending.extend_from_slice(&d);
+        match measure(|| r.parse(&pending)) {
+            Ok(res) => { trace.push(format!("k{}", res.consumed)); let c = res.consumed.min(pending.len()); pending.drain(..c); },
+            Err(_) => { trace.push("e".into()); pending.clear(); },
+        }
+    }
+    let _ = measure(|| r.generate());
+    (format!("calls={}", trace.len()), String::new())
+}
+fn run_respe(a: &[&str]) -> (String, String) {
     let mut r = Response::new();
+    let mut pending: Vec<u8> = Vec::new();
+    let mut trace = Vec::new();
+    for d in deliveries(a[0]) {
+        pending.extend_from_slice(&d);
+        match measure(|| r.parse(&pending)) {
+            Ok(res) => { trace.push(format!("k{}", res.consumed)); let c = res.consumed.min(pending.len()); pending.drain(..c); },
+            Err(_) => { trace.push("e".into()); pending.clear(); },
+        }
+    }
+    let _ = measure(|| r.generate());
+    (format!("calls={}", trace.len()), String::new())
+}
+// resppre <body hex> <deliveries>: the caller has put something into the public `body` field before parsing (or an
+// earlier, abandoned message left it there): an accepted chunked response replaces it
+fn run_resppre(a: &[&str]) -> (String, String) {
+    let mut r = Response::new();
+    r.body = unhex(a[0]);
+    run_resp_with(r, &a[1..])
+}
+// reqretry / respretry: the deliveries are presented until a call answers with an error; then `parse` is called twice
+// more on the same value, with nothing and with the pending bytes again.  A rejected message stays rejected.
+fn retry_report(first: &str, again: Vec<String>) -> (String, String) {
+    (format!("first={};again={}", first, again.join(",")), String::new())
+}
+fn run_reqretry(a: &[&str]) -> (String, String) {
+    let mut r = new_request(a[0], a[1], a[2]);
+    let mut pending: Vec<u8> = Vec::new();
+    for d in deliveries(a[3]) {
+        pending.extend_from_slice(&d);
+        match measure(|| r.parse(&pending)) {
+            Ok(res) => {
+                if res.status == RequestParseStatus::Complete { return ("first=C".into(), String::new()); }
+                let c = res.consumed.min(pending.len()); pending.drain(..c);
+            },
+            Err(e) => {
+                let mut again = Vec::new();
+                for buf in [&b""[..], &pending[..]] {
+                    again.push(match measure(|| r.parse(buf)) {
+                        Ok(res) => if res.status == RequestParseStatus::Complete { format!("C{}", res.consumed) } else { "I".into() },
+                        Err(_) => "E".into(),
+                    });
+                }
+                return retry_report(&err_cat(&e), again);
+            },
+        }
+    }
+    ("first=N".into(), String::new())
+}
+fn run_respretry(a: &[&str]) -> (String, String) {
+    let mut r = Response::new();
+    let mut pending: Vec<u8> = Vec::new();
+    for d in deliveries(a[0]) {
+        pending.extend_from_slice(&d);
+        match measure(|| r.parse(&pending)) {
+            Ok(res) => {
+                if res.status == ResponseParseStatus::Complete { return ("first=C".into(), String::new()); }
+                let c = res.consumed.min(pending.len()); pending.drain(..c);
+            },
+            Err(e) => {
+                let mut again = Vec::new();
+                for buf in [&b""[..], &pending[..]] {
+                    again.push(match measure(|| r.parse(buf)) {
+                        Ok(res) => if res.status == ResponseParseStatus::Complete { format!("C{}", res.consumed) } else { "I".into() },
+                        Err(_) => "E".into(),
+                    });
+                }
+                return retry_report(&err_cat(&e), again);
+            },
+        }
+    }
+    ("first=N".into(), String::new())
+}
+fn run_resp_with(base: Response, a: &[&str]) -> (String, String) {
+    let mut r = base;
     let dels = deliveries(a[0]);
     let (trace, verdict, total, presented) = feed(
         |buf| match r.parse(buf) {
@@ -400,6 +506,22 @@ fn run_decseq(a: &[&str]) -> (String, String) {
         if pair.len() == 2 {
             out.push(run_dec(pair).0);
         }
+    }
+    (out.join("|"), String::new())
+}
+
+// decchain h b1 b2 ... : decode_body called again and again on ONE headers value (a caller that retries, or that
+// keeps the value for the next message): each call starts from the headers the previous one left
+fn run_decchain(a: &[&str]) -> (String, String) {
+    let mut h = build_headers(a[0]);
+    let mut out = Vec::new();
+    for b in &a[1..] {
+        let body = unhex(b);
+        let r = measure(|| coding::decode_body(&mut h, &body));
+        out.push(match r {
+            Ok(b) => format!("ok;b={};h={}", hex(&b), show_headers(&h)),
+            Err(e) => format!("err:{};h={}", err_cat(&e), show_headers(&h)),
+        });
     }
     (out.join("|"), String::new())
 }
@@ -712,6 +834,14 @@ fn run_case(kind: &str, args: &[&str]) -> (String, String) {
     match kind {
         "req" => run_req(args),
         "resp" => run_resp(args),
+        "reqd" => run_reqd(args),
+        "respd" => run_respd(args),
+        "reqe" => run_reqe(args),
+        "respe" => run_respe(args),
+        "decchain" => run_decchain(args),
+        "resppre" => run_resppre(args),
+        "reqretry" => run_reqretry(args),
+        "respretry" => run_respretry(args),
         "dec" => run_dec(args),
         "decseq" => run_decseq(args),
         "txt" => run_txt(args),
